@@ -3356,6 +3356,17 @@ namespace bloch::compiler {
         }
         if (node.body)
             node.body->accept(*this);
+        // as for a function: a method that declares a result returns one along every path
+        if (node.body && (ret.value != ValueType::Void || !ret.className.empty())) {
+            if (!m_foundReturn) {
+                throw BlochError(ErrorCategory::Semantic, node.line, node.column,
+                                 "Non-void method must have a 'return' statement.");
+            }
+            if (!alwaysReturns(node.body.get())) {
+                throw BlochError(ErrorCategory::Semantic, node.line, node.column,
+                                 "Non-void method must return a value along every path.");
+            }
+        }
     }
 
     void SemanticAnalyser::visit(ConstructorDeclaration& node) {
